@@ -157,12 +157,58 @@ def close(a, b, rtol):
     return bool(np.abs(a - b).max(initial=0.0) <= rtol * (1.0 + scale))
 
 
+
+# ------------------------------------------------------------------ which samples is a recorded batch made of? (independent of the code's bookkeeping)
+def true_indices(Xb, Xfull):
+    """Row numbers (in the data handed to fit) of the rows of a recorded batch, by value; duplicated rows are
+    interchangeable (same features, hence same affinities) and are assigned first-free."""
+    used, idx = set(), []
+    for row in Xb:
+        hit = next((j for j in range(len(Xfull)) if j not in used and np.array_equal(Xfull[j], row)), None)
+        if hit is None:
+            return None
+        used.add(hit)
+        idx.append(hit)
+    return idx
+
+
+def align_affinity(chk, key, est, rec, fam, X, steps, replay, dynamic):
+    """L3: the affinity block every training step was evaluated with must be the rows AND columns of the batch's own
+    samples in the full affinity (computed here, on the full data, with the GEMINI's public compute_affinity).
+    The independently derived block replaces the recorded one in the finite-difference objective."""
+    Xfull = np.asarray(est.training_kernel_ if fam == "KernelRIM" else X, dtype=float)
+    try:
+        A_full = rec.gem.compute_affinity(Xfull, None)
+    except Exception:
+        A_full = None
+    bad = None
+    for st in steps:
+        idx = list(range(len(Xfull))) if fam == "CategoricalModel" else true_indices(st["X"], Xfull)
+        st["true_idx"] = idx
+        if idx is None:
+            bad = bad or ("batch-row-unknown", st["step"], "a row of the batch handed to _infer is not a row of the training data")
+            continue
+        if st.get("idx") is not None and list(st["idx"]) != idx and not any((Xfull[a] == Xfull[b]).all() for a in idx for b in idx if a != b):
+            bad = bad or ("indices-misreported", st["step"], f"_batchify.indices={st['idx']} but the batch rows are samples {idx}")
+        if A_full is None or dynamic:
+            continue                      # no affinity (f-divergences) / dynamic path: the affinity is recomputed on the selected features
+        blk = np.asarray(A_full)[np.ix_(idx, idx)]
+        st["affinity_ind"] = blk
+        rec_blk = st.get("affinity")
+        if rec_blk is None or np.shape(rec_blk) != blk.shape or not np.allclose(rec_blk, blk, rtol=1e-12, atol=1e-12):
+            bad = bad or ("affinity-misaligned", st["step"], "the affinity block used for the GEMINI gradient is not the rows/columns of the batch's own samples "
+                          f"(batch samples {idx})")
+    chk.dist["affinity_blocks_aligned_checked"] += sum(1 for st in steps if "affinity_ind" in st)
+    if bad is not None:
+        chk.fail(f"{key}:{bad[0]}", f"step {bad[1]}: {bad[2]}", dict(replay, step=bad[1]), layer="L3")
+
+
 # ------------------------------------------------------------------ finite differences (L3)
 def objective(est, rec, st, fam):
     """GEMINI(infer(batch)) + constraint terms - penalty at the estimator's *current* parameters (implementation's
     own forward pass and score; nothing of the model is used)."""
     y = type(est)._infer(est, st["X"], False)
-    val = float(np.asarray(rec.gem_eval(y, st["affinity"], False)))
+    val = float(np.asarray(rec.gem_eval(y, st.get("affinity_ind", st["affinity"]), False)))
     idx = st["idx"]
     if idx is not None:
         for (i, j) in rec.cl:
@@ -374,6 +420,7 @@ def run_case(chk, i, stream, case, path_kw=None):
         chk.count(None)
         return
     chk.traces += 1
+    align_affinity(chk, key, est, rec, fam, X, steps, replay, dynamic=bool(kw.get("dynamic")) and path_kw is not None)
     moved = any(not np.array_equal(a, b) for a, b in zip(steps[0]["params"], steps[-1]["params"]))
     # ---- L2 on every step (capped), L3 on a few steps spread over the epochs (never the very first: parameters must have moved)
     cap = 14 if chk.tier == "quick" else 60
@@ -524,7 +571,7 @@ def main():
                     "plain / mlcl-decorated, n<=20, d<=4, h<=5, with update_params intercepted; every recorded step (capped per fit) is recomputed by the "
                     "extracted model (rtol 1e-9) and a few steps per fit are checked against central finite differences of the objective "
                     "(Richardson-extrapolated central differences at steps h, h/2, h/4: two estimates that must agree to rtol 5e-6, compared with the recorded direction at rtol 1e-5 plus ten times their spread; entries crossing a ReLU kink skipped, entries whose one-sided slopes keep a jump that does not shrink with h (kink of the score itself) skipped, states on the clip boundary skipped). "
-                    "non-trivial = parameters moved during the fit and at least one finite-difference entry was compared "
+                    "Every recorded batch is re-identified by looking its rows up in the data, and its affinity block A_full[idx][:, idx] is recomputed from gemini.compute_affinity on the full data: a recorded block that differs is an L3 failure (affinity-misaligned) and the recomputed block is the one the finite differences use. non-trivial = parameters moved during the fit and at least one finite-difference entry was compared "
                     "(and, when decorated, a constrained pair fell inside a batch); distinct = (family, gemini, solver, batch class, decorated)")
 
 
